@@ -82,6 +82,36 @@ func timeoutTables(c *core.Ctx) {
 		return
 	}
 	writes, good := 0, 0
+	// the map is filled exactly once, by the loop over the encoder's table: either in init() through the
+	// package variable, or in the constructor function the variable is initialised with (a local that the
+	// function creates, fills and returns)
+	var ctorFd *ast.FuncDecl
+	var ctorLocal types.Object
+	if initExpr := varInitExpr(p, lookup); initExpr != nil {
+		if call, ok := astx.Unparen(initExpr).(*ast.CallExpr); ok && len(call.Args) == 0 {
+			if f := astx.CalleeFunc(info, call); f != nil && f.Pkg() == p.Connect.Types {
+				if fd := p.Decl(f); fd != nil {
+					same := true
+					for _, ret := range astx.Returns(fd.Body) {
+						if len(ret.Results) != 1 {
+							same = false
+							continue
+						}
+						o := astx.ObjOf(info, ret.Results[0])
+						if o == nil || (ctorLocal != nil && o != ctorLocal) {
+							same = false
+						}
+						ctorLocal = o
+					}
+					if same && ctorLocal != nil {
+						ctorFd = fd
+					} else {
+						ctorLocal = nil
+					}
+				}
+			}
+		}
+	}
 	for _, fd := range p.AllFuncDecls(p.Connect) {
 		ast.Inspect(fd.Body, func(n ast.Node) bool {
 			as, ok := n.(*ast.AssignStmt)
@@ -90,11 +120,15 @@ func timeoutTables(c *core.Ctx) {
 			}
 			for i, l := range as.Lhs {
 				ie, ok := astx.Unparen(l).(*ast.IndexExpr)
-				if !ok || astx.ObjOf(info, ie.X) != lookup {
+				if !ok {
+					continue
+				}
+				target := astx.ObjOf(info, ie.X)
+				if target != types.Object(lookup) && !(fd == ctorFd && target != nil && target == ctorLocal) {
 					continue
 				}
 				writes++
-				inInit := fd.Name.Name == "init" && fd.Recv == nil
+				inInit := (fd.Name.Name == "init" && fd.Recv == nil && target == types.Object(lookup)) || (fd == ctorFd && target == ctorLocal)
 				// the loop over the encoder's table (range or index form) and its element
 				okKV := false
 				for _, lp := range loopsIn(fd.Body) {
@@ -117,13 +151,35 @@ func timeoutTables(c *core.Ctx) {
 				if inInit && okKV {
 					good++
 				} else {
-					c.Violation("lookup/write/"+core.FuncName(fd), as.Pos(), "lookup map written outside `init: for _, e := range grpcTimeoutUnits { lookup[e.char] = e.size }`")
+					c.Violation("lookup/write/"+core.FuncName(fd), as.Pos(), "lookup map written outside `for _, e := range grpcTimeoutUnits { lookup[e.char] = e.size }` in init or in the variable's own constructor")
 				}
 			}
 			return true
 		})
 	}
 	c.Check(writes == 1 && good == 1, "lookup/single-writer", lookup.Pos(), "parse-side lookup map has %d write(s), %d of them the init loop over the encoder's table", writes, good)
+}
+
+// varInitExpr returns the expression initialising a package-level variable.
+func varInitExpr(p *core.Program, v types.Object) ast.Expr {
+	info := p.Connect.TypesInfo
+	for _, f := range p.Connect.Syntax {
+		for _, d := range f.Decls {
+			gd, ok := d.(*ast.GenDecl)
+			if !ok || gd.Tok != token.VAR {
+				continue
+			}
+			for _, s := range gd.Specs {
+				vs := s.(*ast.ValueSpec)
+				for i, name := range vs.Names {
+					if info.Defs[name] == v && i < len(vs.Values) {
+						return vs.Values[i]
+					}
+				}
+			}
+		}
+	}
+	return nil
 }
 
 // varInitLiteral returns the composite literal initialising a package-level variable.
